@@ -218,3 +218,7 @@ func verifAdvanceClock(d time.Duration) { time.Sleep(d) }
 // verifLetOthersRun: the caller waits until no other goroutine can run any more
 // (engine); natively a short sleep.
 func verifLetOthersRun() { time.Sleep(30 * time.Millisecond) }
+
+// verifKnownDeadlock: from here on a deadlock of the explored path is the listed
+// known finding id (engine); natively nothing.
+func verifKnownDeadlock(id string) {}
